@@ -293,7 +293,13 @@ func (l *Loaded) verifyFunc(r *Runner, fn *ssa.Function, sp *FuncSpec) (res *FnR
 	}
 	r.reach(st, "entry")
 	r.work = append(r.work, st)
+	r.csEvaluated = map[string]bool{}
 	r.run()
+	for _, c := range sp.CSEnsures {
+		if !r.csEvaluated[c.Label] {
+			panic(specErr{"critical-section clause [" + c.Label + "] could not be evaluated on any path (unresolved identifier or no lock released)"})
+		}
+	}
 	return res
 }
 
